@@ -205,6 +205,26 @@ func buildE2(w *World) *e2env {
 					for _, k := range kinds {
 						k := k
 						switch k {
+						case 'W':
+							// fits proposal A, but the application's payload verifier refuses it (bad witness)
+							p := props['A']
+							if p == nil || i == x {
+								continue
+							}
+							bf := blockOf(p, false)
+							add(fmt.Sprintf("h%d v%d %s for A with a bad witness from %d", h, v, label, i), func(w *World) *Payload {
+								hs, ok := bf(w)
+								if !ok {
+									return nil
+								}
+								bh := hs[0]
+								if kind == 'P' {
+									bh = hs[1]
+								}
+								q := mk(t, i, body(mkSig(kind, vals[i], bh)))
+								q.badWitness = true
+								return q
+							})
 						case 'A', 'B':
 							p := props[byte(k)]
 							if p == nil {
@@ -374,6 +394,10 @@ func (w *World) e2Enabled() []Event {
 			}
 		}
 	}
+	if sp.ForeignTx && (x.m == nil || !x.m.reqActive) && !x.pendingReset && !x.foreignEarly {
+		// ... also before any proposal is known (once)
+		evs = append(evs, Event{K: "tx", N: x.id, P: 0x7777, A: 1})
+	}
 	if m := x.m; sp.ForeignTx && m != nil && m.reqActive && m.height == x.d.BlockIndex {
 		for _, h := range []H{0x7777, 106} {
 			if !m.requested[h] {
@@ -425,6 +449,13 @@ func (w *World) e2Apply(e Event) {
 		panic(harnessFault{"replay divergence: symbol not available: " + s.name})
 	}
 	p.Hash()
+	// environment payloads are scripted, whatever validator index they carry (srcNode is harness bookkeeping only)
+	p.srcNode = -1
+	if rm, ok := p.body.(*recMsg); ok {
+		for _, e := range rm.payloads {
+			e.srcNode = -1
+		}
+	}
 	if w.logOn {
 		w.logf("== env hands X: %s [%s]", p, s.name)
 	}
